@@ -26,7 +26,7 @@ pub fn run_shape(rt: &tokio::runtime::Runtime, n: u64, p: u64, k: u64) -> Result
 }
 
 fn log2ceil(x: u64) -> u64 { if x <= 1 { 0 } else { 1 + log2ceil((x + 1) / 2) } }
-pub fn call_limit(n: u64) -> u64 { n + 2 * log2ceil(n + 1) + 4 }
+pub fn call_limit(n: u64) -> u64 { n + 8 * log2ceil(n + 1) + 16 }   // "a logarithmic term": generous constants, the statement names none
 
 pub fn run(args: &Args) {
     let rt = tokio::runtime::Builder::new_current_thread().build().expect("runtime");
